@@ -105,7 +105,7 @@ PROB_B = {"doms": [[-2, 2], [0, 3], [0, 3]], "vars": [[0, 0], [1, 0], [2, 0], [1
 PROB_V = {"doms": [[0, 3], [0, 3], [-1, 2], [0, 2]], "vars": [[0, 0], [1, 0], [2, 0], [0, 1], [3, 0]],
           "cons": [["affine_leq", [0, 1, 2], [-1, 1, 1, 0]], ["affine_leq", [2, 1, 0], [1, -2, -1, -1]], ["alldifferent", [2, 1, 3], []],
                    ["count_eq", [2, 1, 4], [0]], ["max_eq", [0, 1, 4], []], ["affine_geq", [0, 1, 2], [1, 1, -1, 3]]], "tag": "V"}
-OPS = "ABPRGSVL"
+OPS = "ABPRGSVLN"
 # declaration lists owned by the caller and reused for every problem declared from them (a user who keeps the data of a model in
 # module-level lists and builds several problems from them): the fourth part of the probe and history operation L use them
 ALIAS_DECL = ([(0, 2), (0, 2)], [0, 1], [0, 0])
@@ -134,6 +134,9 @@ def do_probe(shared_problem=None):
     q.add_propagator(([0, 1], K.ALG["affine_leq"], [1, -1, 0]))
     solver = BacktrackSolver(q, log_level="ERROR")
     res["alias"] = {"solutions": [[int(v) for v in x] for x in solver.solve()], "stats": solver.get_statistics()}
+    from mc import custom
+
+    res["custom"] = custom.solve_with("lt")  # a freshly registered user propagator (x0 < x1)
     return res
 
 
@@ -171,6 +174,11 @@ def apply_op(op, state):
         extra = q.add_variable((0, 1))
         q.add_propagator(([0, extra], K.ALG["affine_leq"], [1, -1, 0]))
         BacktrackSolver(q, log_level="ERROR").find_all()
+    elif op == "N":
+        # a user propagator registered and used earlier whose function has the same __name__ as the probe's (x0 > x1)
+        from mc import custom
+
+        custom.solve_with("gt")
     elif op == "V":
         S.make_solver(S.build(PROB_V), PROB_V, ("bc", "smallest", "mid", None)).find_all()
     elif op == "S":
